@@ -46,9 +46,18 @@ class Parser::ParserImpl {
   /// @}
 
   void getNextNonCommentToken() {
-    do {
+    lexer.lex(tok);
+    while (tok.tokenKind == Token::Kind::Comment) {
+      bool startsLine = tok.column == 0;
       lexer.lex(tok);
-    } while (tok.tokenKind == Token::Kind::Comment);
+      // A comment line that starts in the first column vanishes together with
+      // its newline, as it does in Ninja: in the middle of an indented block
+      // it must not look like an empty unindented line, which would end the
+      // block. (An indented comment line is handled like a blank line by the
+      // block parser.)
+      if (startsLine && tok.tokenKind == Token::Kind::Newline)
+        lexer.lex(tok);
+    }
   }
 
   /// Consume the current 'peek token' and lex the next one.
